@@ -1459,9 +1459,18 @@ def ext_method(it, objv, name, args, kwargs, node):
             d = it.new_dict({n: p for n, p in module_params(it, objv)}, origin="state_dict")
             return d
         if m == "load_state_dict":
+            src = args[0] if args else kwargs.get("state_dict")
+            assign = kwargs.get("assign", args[2] if len(args) > 2 else VConst(False))
+            share = it.truth(assign) is not False  # assign=True keeps the given tensors as the parameters' storage
             for n, p in module_params(it, objv):
                 it.effect("params", p.obj, node, "load_state_dict")
-                p.obj.term = T.sym("loaded:%s" % n)
+                sv = src.obj.items.get(n) if isinstance(src, VDict) and src.obj.items is not None else None
+                if isinstance(sv, VTens):
+                    p.obj.term = sv.term
+                    if share:
+                        p.obj.may_alias.add(sv.obj)
+                else:
+                    p.obj.term = T.sym("loaded:%s" % n)
             return VConst(None)
         if m == "zero_grad":
             for n, p in module_params(it, objv):
